@@ -3135,3 +3135,117 @@ func rawErrorsWhereClassified(c *Ctx, rule string) {
 	}
 	c.AtLeast(rule, "os errors returned by functions whose result is classified with os.IsNotExist", n, 1)
 }
+
+// protectionLookupURLFromURLFields (C17): whether CR protection applies is looked up under
+// credential.<url>.protectProtocol with <url> built from the request URL's scheme, host and path. Nothing decoded
+// from the userinfo may be spliced into that lookup URL: a user name containing a control byte makes the URL
+// unparsable, the scoped setting is skipped, and the very value the protection is about escapes it.
+func protectionLookupURLFromURLFields(c *Ctx, rule string) {
+	p := c.P
+	fn := p.Fn("creds", "(*CredentialHelperContext).GetCredentialHelper")
+	if fn == nil {
+		c.Missing(rule, "(*creds.CredentialHelperContext).GetCredentialHelper", "not found")
+		return
+	}
+	isUserinfo := func(v ssa.Value) bool {
+		if cc, _, ok := CallResult(v); ok && strings.HasPrefix(CalleeName(cc.Common()), "(*net/url.Userinfo).") {
+			return true
+		}
+		if cc, _, ok := CallResult(v); ok && nameIn(CalleeName(cc.Common()), []string{"(*net/url.URL).String", "(*net/url.URL).Redacted", "(*net/url.URL).RequestURI"}) {
+			return true
+		}
+		return false
+	}
+	n := 0
+	for _, ci := range CallsIn(fn, "(*config.URLConfig).Bool", "(*config.URLConfig).Get", "(*config.URLConfig).GetAll") {
+		a := CallArgs(ci.Common())
+		if len(a) < 4 {
+			continue
+		}
+		n++
+		good := true
+		for _, l := range p.LeavesNoFields(a[2], func(v ssa.Value) FlowAct {
+			if isUserinfo(v) {
+				return Stop
+			}
+			return Descend
+		}) {
+			if isUserinfo(l) {
+				good = false
+			}
+		}
+		c.Check(good, rule, "config-lookup-url:no-userinfo#"+itoa(n), p.InstrPos(ci), "the URL a credential.<url>.* setting is looked up under contains nothing decoded from the userinfo",
+			"the URL under which credential.<url>.* settings are looked up contains the decoded user name: a user name with a control byte makes the URL unparsable, a URL-scoped protectProtocol=true is silently skipped, and the CR reaches `git credential`")
+	}
+	c.AtLeast(rule, "URL-scoped credential lookups", n, 1)
+}
+
+// offeredAuthorizationKept (C18): when a request is refused, doWithAuth forgets the Authorization header only if
+// git-lfs itself had filled it from the credential helper (the wrapper carries credentials). A header that came
+// with a batch action stays: removing it makes the callers retry the action URL with the user's Git credentials
+// instead of the header the server offered.
+func offeredAuthorizationKept(c *Ctx, rule string) {
+	p := c.P
+	fn := p.Fn("lfsapi", "(*Client).doWithAuth")
+	if fn == nil {
+		c.Missing(rule, "(*lfsapi.Client).doWithAuth", "not found")
+		return
+	}
+	pass := PassEdges(fn, func(cond ssa.Value) (bool, bool) {
+		op, x, y, ok := BinCmp(cond)
+		if !ok || (op != token.EQL && op != token.NEQ) {
+			return false, false
+		}
+		if IsNilConst(x) {
+			x, y = y, x
+		}
+		if !IsNilConst(y) {
+			return false, false
+		}
+		if tn, f, _, ok := FieldOf(x); ok && tn == "creds.CredentialHelperWrapper" && f == "Creds" {
+			return op == token.NEQ, true
+		}
+		return false, false
+	})
+	n := 0
+	for _, ci := range CallsIn(fn, "(net/http.Header).Del") {
+		a := CallArgs(ci.Common())
+		if s, ok := ConstString(a[1]); !ok || !strings.EqualFold(s, "Authorization") {
+			continue
+		}
+		n++
+		g, where := Guarded(fn.Blocks[0], ci, pass, nil)
+		c.Check(g && nonVacuous(pass), rule, "authorization-dropped-only-if-own#"+itoa(n), p.InstrPos(ci), "the Authorization header is removed only when the credentials in it came from the helper",
+			"doWithAuth removes an Authorization header it did not set ("+where+"): after a 401 the header a batch action offered is gone and the action URL is retried with the user's own Git credentials")
+	}
+	c.AtLeast(rule, "removals of the Authorization header in doWithAuth", n, 1)
+}
+
+// lockQueryEncoded (C18): the lock list request carries path, id, cursor, limit and refspec as query parameters;
+// the query string is what url.Values.Encode produces (which escapes '+', '&' and '='), not a hand-made join.
+func lockQueryEncoded(c *Ctx, rule string) {
+	p := c.P
+	n := 0
+	for _, fn := range p.RepoFuncs(productPkg) {
+		for _, b := range fn.Blocks {
+			for _, in := range b.Instrs {
+				st, ok := in.(*ssa.Store)
+				if !ok {
+					continue
+				}
+				fa, ok := st.Addr.(*ssa.FieldAddr)
+				if !ok {
+					continue
+				}
+				if tn, f := fieldAddrName(fa); tn != "net/url.URL" || f != "RawQuery" {
+					continue
+				}
+				n++
+				cc, _, isRes := CallResult(st.Val)
+				c.Check(isRes && CalleeName(cc.Common()) == "(net/url.Values).Encode", rule, "raw-query-from-values-encode:"+FnName(fn), p.InstrPos(st), "the query string is url.Values.Encode()",
+					FnName(fn)+" assembles a request's query string by hand: a path, ref or cursor containing '+', '&' or '=' reaches the server as a different value or as extra parameters, so the lock list (and an unlock by path) is about another file")
+			}
+		}
+	}
+	c.AtLeast(rule, "query strings set on request URLs", n, 1)
+}
